@@ -13,6 +13,10 @@ from vlib import ToolError
 import groups
 
 
+import re
+WORDS = re.compile(r"[A-Za-z_]+[0-9]*")
+
+
 def pick(line_key, seed, keep_frac):
     h = hashlib.sha256(f"{seed}:{line_key}".encode()).digest()
     return int.from_bytes(h[:4], "big") / 2**32 < keep_frac
@@ -114,17 +118,48 @@ def run_model_group(g, tier, seed):
         kept = nbad = 0
         runs = []
         chosen = None
+        picked = None
+        if "select" not in g and total > cquota:
+            # stratified sample: transitions are grouped by the multiset of words of their command history (which
+            # packet kinds, how many completions, which outcomes, which causes) and the quota is spread over the
+            # groups round-robin, so that rare combinations are replayed as surely as common ones
+            classes = {}
+            with open(r["out"], errors="replace") as f:
+                for ln, line in enumerate(f):
+                    if line.startswith('<<"REPLAY", "none"'):
+                        key = tuple(sorted(WORDS.findall(line[18:])))
+                        classes.setdefault(key, []).append(ln)
+            for key in classes:
+                classes[key].sort(key=lambda ln: hashlib.sha256(f"{seed}:{ln}".encode()).digest())
+            picked = set()
+            order = sorted(classes, key=lambda k: hashlib.sha256(f"{seed}:{k}".encode()).digest())
+            i = 0
+            while len(picked) < cquota and order:
+                nxt = []
+                for key in order:
+                    if i < len(classes[key]):
+                        picked.add(classes[key][i])
+                        nxt.append(key)
+                        if len(picked) >= cquota:
+                            break
+                order = nxt
+                i += 1
+            out.setdefault("strata", {})[name] = len(classes)
         if "select" in g:
             # the group picks the behaviours to replay itself (e.g. de-duplication, priorities)
             chosen = g["select"](name, [h for _, h in vlib.prints(r["out"], "REPLAY")], tier, seed, cquota)
         with open(r["out"], errors="replace") as f:
-            for line in f:
+            for ln, line in enumerate(f):
                 if not line.startswith('<<"REPLAY"'):
                     continue
                 is_bad = not line.startswith('<<"REPLAY", "none"')
                 nbad += is_bad
-                if chosen is None and not (is_bad and nbad <= 40) and not pick(line, seed, frac):
-                    continue
+                if chosen is None and not (is_bad and nbad <= 40):
+                    if picked is not None:
+                        if ln not in picked:
+                            continue
+                    elif not pick(line, seed, frac):
+                        continue
                 m = vlib.PRINT_RE.match(line)
                 if not m:
                     continue
@@ -241,7 +276,7 @@ def report(prop, g, tier, seed, res, wall):
         samples=res["samples"], tlc=res["tlc"],
         verdict_agreement=dict(agree=res["verdict_agree"], drift=res["verdict_drift"], drift_samples=res["drift_samples"]),
         model_invariant_failures=res.get("model_invariant_failures", []),
-        conformance=res.get("conform"),
+        conformance=res.get("conform"), sample_strata=res.get("strata"),
         violations_for_this_property=len(mine), new_violations=len(new),
         known_findings_seen=list(seen_known), exhaustive=False,
         rule=g["rule"], wall=res.get("wall"), group_cached=res.get("group_cached", False),
